@@ -18,11 +18,14 @@ MANIFEST = {
             "Assembler+StringLogger path by running both on the same lines; the Lean reader (the theorems' predicate) judges every text "
             "the real code produced for well-formed inputs.",
     "note": "Trusted: Lean kernel; Spec/FormatText.lean (register names from the manuals, the reader); gen_formattabs.py; harness/driver/diff. "
-            "Not modelled: the explanatory {a|b|c} immediate annotations of kExplainImms (stripped before comparison, the reader skips "
-            "them), node-list formatting of Builder/Compiler (format_node), format_feature/type_id/data. AArch64 operand and named-label "
-            "parse-back are monitored on every run, not proved for all inputs. The encoder's bytes are inputs here (C01/C02).",
+            "The explanatory {a|b|c} immediate annotations of kExplainImms are modelled (Model/FormatExplain.lean, tables regenerated from "
+            "x86formatter.cpp), compared in full on `inst`/`emit` lines and judged against the immediate by an independent reader "
+            "(Spec/FormatExplain.lean: every word decoded into a claim `imm & mask = value`); annotation_truth_* prove the claims for every "
+            "immediate byte for the families without an open finding; the line reader itself skips the annotation (the line theorems are "
+            "about the text without it). Not modelled: func/ret/invoke/sentinel/const-pool nodes, format_feature/type_id/data. "
+            "The encoder's bytes are inputs here (C01/C02).",
 }
-MODS = ["AsmjitVerif.Props.C20", "AsmjitVerif.Props.C20Names", "AsmjitVerif.Props.C20Mem", "AsmjitVerif.Props.C20Read", "AsmjitVerif.Props.C20Line", "AsmjitVerif.Props.C20A64Line", "AsmjitVerif.Props.C20Node", "AsmjitVerif.Props.C20Column", "AsmjitVerif.Props.C20Virt", "AsmjitVerif.Props.C20NodeNum"]
+MODS = ["AsmjitVerif.Props.C20", "AsmjitVerif.Props.C20Names", "AsmjitVerif.Props.C20Mem", "AsmjitVerif.Props.C20Read", "AsmjitVerif.Props.C20Line", "AsmjitVerif.Props.C20A64Line", "AsmjitVerif.Props.C20Node", "AsmjitVerif.Props.C20Column", "AsmjitVerif.Props.C20Virt", "AsmjitVerif.Props.C20NodeNum", "AsmjitVerif.Props.C20Explain", "AsmjitVerif.Props.C20ExplainA", "AsmjitVerif.Props.C20ExplainB", "AsmjitVerif.Props.C20ExplainC", "AsmjitVerif.Props.C20ExplainD", "AsmjitVerif.Props.C20ExplainE", "AsmjitVerif.Props.C20ExplainF"]
 
 M64 = (1 << 64) - 1
 FF = {"mc": 0x1, "alias": 0x8, "explain": 0x10, "heximm": 0x20, "hexoff": 0x40, "casts": 0x100, "pos": 0x200, "regtype": 0x400}
@@ -904,7 +907,8 @@ def generate():
 def run(res):
     rng = vlib.rng_for(res.seed, PID)
     res.assumptions += [
-        "kExplainImms annotations `{a|b|c}` are not modelled: removed from the implementation text before the comparison, skipped by the reader",
+        "kExplainImms annotations `{a|b|c}`: modelled and compared in full on inst/emit lines, judged against the immediate by monExplain on "
+        "well-formed lines with exactly one immediate; the line reader (monInstruction) skips them; on node texts they are removed before comparing",
         "the reader judges texts of well-formed inputs only (architecturally valid register ids, valid labels/virtual registers, sizes/segments "
         "the syntax can express, label and virtual-register names that are identifiers and do not collide with register names); "
         "ill-formed inputs are compared model vs implementation only",
@@ -1073,8 +1077,10 @@ def run(res):
     res.coverage["line_theorem_wf_fraction_of_emitted_lines"] = {
         k: {"inside": a_, "emitted": b_, "fraction": round(a_ / b_, 4) if b_ else None} for k, (a_, b_) in frac.items()}
     res.coverage["line_theorem_wf_note"] = ("x86_line_parse_back / a64_line_parse_back quantify over all lines satisfying WFLine / "
-        "(OpOKA, A64OpsOK); a line is outside only if it carries a kExplainImms annotation (text not modelled) or an operand "
-        "outside the proved kinds; the classifier op_in_theorem mirrors the WF predicates")
+        "(OpOKA, A64OpsOK); a line is outside only if it carries a kExplainImms annotation or an operand outside the proved kinds; "
+        "annotated lines (many since round 9: a dedicated block emits them) are covered differently: text compared in full with the model, "
+        "annotation judged by monExplain (theorems annotation_truth_* for every immediate byte), rest of the line judged by the reader after "
+        "skipping the annotation; `dropImmAnnotations (annotated text) = plain text` is NOT proved, so they are not counted inside")
     if not all(tgt.values()):
         broken.append("generator no longer reaches a targeted class: %s" % tgt)
     res.coverage["machine_code_column_on_real_byte_stream"] = (
